@@ -203,7 +203,10 @@ class Check(PropertyCheck):
                 "LLBuild.Refine.EngineImpl_sound_crash", "LLBuild.Refine.EngineImpl_sound_C04_continue_clean",
                 "LLBuild.Refine.EngineImpl_sound_C04_state", "LLBuild.Refine.EngineImpl_sound_C04_rows",
                 "LLBuild.Refine.EngineImpl_crash_store", "LLBuild.Refine.EngineImpl_crash_none",
-                "LLBuild.Refine.trun_prefix", "LLBuild.Refine.toEvents_evOfToks", "LLBuild.Refine.EngineImpl_killedTrace"]
+                "LLBuild.Refine.trun_prefix", "LLBuild.Refine.toEvents_evOfToks", "LLBuild.Refine.EngineImpl_killedTrace",
+                # kills combined with description edits and injected database write failures (Props/EngineImplAll.lean)
+                "LLBuild.Refine.EngineImpl_sound_all", "LLBuild.Refine.EngineImpl_sound_fail", "LLBuild.Refine.EngineImpl_sound_fail_quiescent",
+                "LLBuild.Refine.EngineImpl_sound_all_of_fail", "LLBuild.Refine.EngineImpl_sound_crash_of_all", "LLBuild.Refine.crashedBuildF_refines", "LLBuild.Refine.refinement_opF"]
     extractors = ["x_sqlitedb", "x_enginefp"]
     harnesses = [("vc03", "plain"), ("vengine", "plain")]
     assumptions = [
@@ -389,7 +392,7 @@ class Check(PropertyCheck):
 
         class _E(EngineCheck):
             prop = "C05"          # reuse the cancellation/crash oracle kinds (stale results after an interrupted build)
-            mix = [(0.7, {"crash": True}), (0.3, {"crash": True, "cancel": True})]
+            mix = [(0.6, {"crash": True}), (0.25, {"crash": True, "cancel": True}), (0.15, {"crash": True, "dbfail": True})]
             budget = (150, 1500)
 
             def corpus_cases(self):
